@@ -171,12 +171,18 @@ impl ZoneSetNode {
     ) -> Result<(), ZoneTreeModificationError> {
         match apex_name.next() {
             Some(label) => {
-                if self.children.remove(label).is_none() {
+                let Some(child) = self.children.get_mut(label) else {
                     return Err(ZoneTreeModificationError::ZoneDoesNotExist);
+                };
+                child.remove_zone(apex_name)?;
+                if child.zone.is_none() && child.children.is_empty() {
+                    self.children.remove(label);
                 }
             }
             None => {
-                self.zone = None;
+                if self.zone.take().is_none() {
+                    return Err(ZoneTreeModificationError::ZoneDoesNotExist);
+                }
             }
         }
         Ok(())
